@@ -8,25 +8,66 @@ _KP_MOD = "ufo2ft.featureWriters.kernFeatureWriter"
 _FG, _SG = "pair.firstGlyphs", "pair.secondGlyphs"
 
 
+def _kp_new_frozen(ex, st, args, kwargs, node):
+    """the dataclass-generated constructor of KerningPair (a FROZEN dataclass: fields are set once, by object.__setattr__ in
+    the generated __init__, and never again).  The model allocates a fresh object (born now, hence distinct from every existing
+    object and from every object made earlier) and states its field values as facts about that object instead of as heap
+    stores: existing objects are untouched by construction, which is what a generator function (no `modifies` allowed) needs
+    for its frame.  (Same library behaviour as c05._kp_new_obj, which uses stores.)"""
+    from pyvc.core import lift
+
+    names = ["side1", "side2", "value"]
+    bound = dict(zip(names, args))
+    bound.update(kwargs)
+    o = ex.new_object(st, "KPairT")
+    cs = CLASSES["KPairT"]
+    for n in names:
+        v = ex.deopt(bound[n], st, node)  # (an Optional argument must be present: obligation)
+        st.assume(lift(ex.read_field(st, o, n)) == lift(v, cs.fields[n]))
+    return o
+
+
+@specfn(BOOL, g=STR, side=c05.SIDE_T)
+def k5_in_side(g, side):
+    """g is a glyph of the side (a class: one of its members; a single glyph: that glyph)"""
+    return (g in side) if isinstance(side, tuple) else (g == side)
+
+
+# a yielded pair q is a PART of the input pair: same value, each side of the same kind (a class stays a class, a glyph stays
+# that glyph) and made of glyphs of the input side only
+_PARTOF = ("({q}.value == pair.value"
+           " and isinstance({q}.side1, tuple) == isinstance(pair.side1, tuple) and isinstance({q}.side2, tuple) == isinstance(pair.side2, tuple)"
+           " and (all(k5_in_side(x, pair.side1) for x in {q}.side1) if isinstance({q}.side1, tuple) else {q}.side1 == pair.side1)"
+           " and (all(k5_in_side(x, pair.side2) for x in {q}.side2) if isinstance({q}.side2, tuple) else {q}.side2 == pair.side2))")
+
+
 def _dir_inv(k):
     """safety invariants about side{k}Directions: every glyph in a direction's set has its resolved scripts recorded; for a
     single-glyph side every direction's set is that glyph alone (element-wise: set equalities under a quantifier are avoided)"""
     D = f"side{k}Directions"
     side = f"pair.side{k}"
     return {
-        f"members.{k}": f"all(all(g in resolvedScripts for g in {D}[d]) for d in set({D}))",
+        f"members.{k}": f"all(all(g in resolvedScripts and k5_in_side(g, {side}) for g in {D}[d]) for d in set({D}))",
+        f"nonempty.{k}": f"all({D}[d] != set() for d in set({D}))",
         f"single.{k}": f"implies(not isinstance({side}, tuple), all({side} in {D}[d] and all(g == {side} for g in {D}[d]) for d in set({D})))",
     }
 
 
 def _part_loops():
-    this = lambda k: {f"this.{k}": f"glyph in resolvedScripts and implies(not isinstance(pair.side{k}, tuple), glyph == pair.side{k})"}
+    this = lambda k: {f"this.{k}": f"glyph in resolvedScripts and k5_in_side(glyph, pair.side{k})"}
+    res = {"scripts": "all(resolvedScripts[g] != set() for g in set(resolvedScripts))"}
+    both = {**_dir_inv(1), **_dir_inv(2), **res}
+    out = {"out": "all(" + _PARTOF.format(q="__yield__[n][1]") + " for n in range(len(__yield__)))",
+           "out-scripts": "all(__yield__[n][0] != set() for n in range(len(__yield__)))"}
     gen = "for direction in (script_direction(script) for script in sorted(scripts))"
     return {
-        "for glyph in pair.firstGlyphs": Loop(index="i1", invariants=_dir_inv(1)),
-        gen + "#1": Loop(index="j1", invariants={**_dir_inv(1), **this(1)}),
-        "for glyph in pair.secondGlyphs": Loop(index="i2", invariants={**_dir_inv(1), **_dir_inv(2)}),
-        gen + "#2": Loop(index="j2", invariants={**_dir_inv(1), **_dir_inv(2), **this(2)}),
+        "for glyph in pair.firstGlyphs": Loop(index="i1", invariants={**_dir_inv(1), **res}),
+        gen + "#1": Loop(index="j1", invariants={**_dir_inv(1), **res, **this(1)}),
+        "for glyph in pair.secondGlyphs": Loop(index="i2", invariants=both),
+        gen + "#2": Loop(index="j2", invariants={**both, **this(2)}),
+        "for glyph in localSide1": Loop(index="q1", invariants={"some.1": "implies(q1 >= 1, side1Scripts != set())"}),
+        "for glyph in localSide2": Loop(index="q2", invariants={"some.2": "implies(q2 >= 1, side2Scripts != set())"}),
+        "for (side1Direction, side2Direction) in itertools.product(side1Directions, side2Directions)": Loop(index="p", invariants={**both, **out}),
     }
 
 
@@ -35,35 +76,115 @@ contract(
     props=["C05"],
     params={"pair": Ref("KPairT"), "glyphScripts": Dict(STR, Set(STR))},
     returns=List(Tuple(Set(STR), Ref("KPairT"))),
-    models={f"{_KP_MOD}.KerningPair": c05._kp_new_obj},
+    models={f"{_KP_MOD}.KerningPair": _kp_new_frozen},
     sorted_axioms=True,
     # every glyph known to glyphScripts has at least one script (setContext builds the map with setdefault(g, set()).add(script))
     requires=["all(glyphScripts[g] != set() for g in set(glyphScripts))"],
-    ensures={"t": "True"},
-    canaries={"empty": "len(result) == 0"},
+    ensures={
+        "part": "all(" + _PARTOF.format(q="result[n][1]") + " for n in range(len(result)))",
+        # every yielded script set is non-empty (splitKerning keys its buckets by them; mergeScripts raises AssertionError for an
+        # empty key)
+        "scripts-non-empty": "all(result[n][0] != set() for n in range(len(result)))",
+    },
+    canaries={"empty": "len(result) == 0", "at-most-one": "len(result) <= 1"},
     locals={"side1Directions": Dict(STR, Set(STR)), "side2Directions": Dict(STR, Set(STR)), "resolvedScripts": Dict(STR, Set(STR)),
             "side1Scripts": Set(STR), "side2Scripts": Set(STR), "scripts": Set(STR)},
     loops=_part_loops(),
 )
 
 
+_PART_SCRIPTS = {"A": ["Latn"], "B": ["Latn"], "alpha": ["Grek"], "alef": ["Arab"], "beh": ["Arab"], "comma": ["Zyyy"], "grave": ["Zinh"],
+                 "dual": ["Latn", "Grek"], "mixed": ["Arab", "Zyyy"], "ka": ["Deva"], "he": ["Hebr"]}
+
+
+def _part_cases(rng, n):
+    glyphs = sorted(_PART_SCRIPTS) + ["unencoded", "other"]
+    out = []
+    for k in range(n):
+        def side():
+            return rng.choice(glyphs) if rng.random() < 0.4 else sorted(rng.sample(glyphs, rng.randint(1, 5)))
+
+        known = [g for g in sorted(_PART_SCRIPTS) if rng.random() < 0.85]
+        out.append({"side1": side(), "side2": side(), "value": rng.choice([-40, 0, 12.5, 7]), "known": known})
+    return out
+
+
+def _part_build(d):
+    from ufo2ft.featureWriters.kernFeatureWriter import KerningPair
+
+    def side(x):
+        return tuple(x) if isinstance(x, list) else x
+
+    class CopyablePair(KerningPair):
+        """(see c05._split_build: the run-time interpreter snapshots arguments; an immutable value is its own copy)"""
+
+        __slots__ = ()
+
+        def __deepcopy__(self, memo):
+            return self
+
+    return {"pair": CopyablePair(side(d["side1"]), side(d["side2"]), d["value"]), "glyphScripts": {g: set(_PART_SCRIPTS[g]) for g in d["known"]}}
+
+
+CONTRACTS[f"{_KP_MOD}:partitionByScript"].runtime = Runtime(_part_cases, _part_build, call=lambda fn, a: fn(a["pair"], a["glyphScripts"]))
+
+
+def _link(L, U):
+    """every member of the ghost union U is in one of the sets of the list L"""
+    return f"all(any(x in {L}[m] for m in range(len({L}))) for x in {U})"
+
+
+def _merge_loops():
+    """coverage: every script of every input key is in one of the sets, through all the merging passes (the sets only ever grow
+    together); in the re-assignment loop this is what makes the `Shouldn't happen` branch unreachable for a non-empty key.
+    Ghost unions (US of `sets`, UR of `result`, US1 of the sets of the pass being consumed) keep the coverage statement free of
+    quantifier alternation; the only exists-under-forall facts are the links list <-> union."""
+    def cov(*unions):
+        return "all(all(" + " or ".join(f"x in {u}" for u in unions) + " for x in set(K)) for K in set(kerningPerScript))"
+
+    keys = "all(tuple(sorted(sets[k])) in result for k in range(len(sets)))"
+    return {
+        "while merged": Loop(invariants={"cov": cov("US"), "link.sets": _link("sets", "US")}),
+        "while sets": Loop(invariants={"cov": cov("US", "UR"), "link.sets": _link("sets", "US"), "link.result": _link("result", "UR")}),
+        "for scripts in rest": Loop(index="j", invariants={
+            "link.sets": _link("sets", "US"),
+            "done": "all(all(x in common or x in US for x in rest[m]) for m in range(j))",
+            "grows": "all(x in common for x in c0)",
+        }),
+        "for (scripts, pairs) in kerningPerScript.items()": Loop(index="a", seq="IT", locals={"result": BUCKETS}, invariants={
+            "keys": keys,
+            "seen-non-empty": "all(len(IT[k]) > 0 for k in range(a))",
+        }),
+        "for scripts2 in sets": Loop(index="b", locals={"result": BUCKETS}, invariants={
+            "keys": keys,
+            "miss": "all((sets[k] & set(scripts)) == set() for k in range(b))",
+        }),
+    }
+
+
+_MERGE_GHOST = {
+    "result = []": ["UR = set()"],
+    "common, rest = (sets[0], sets[1:])": ["c0 = common | set()"],
+    "sets = []": ["US1 = US | set()", "US = set()"],
+    "sets.append(scripts)": ["US = US | scripts"],
+    "result.append(common)": ["UR = UR | common"],
+    "sets = result": ["US = UR | set()"],
+}
+
+
 SETS = List(Set(STR))
-BUCKETS = Dict(TupleOf(STR), List(Ref("KPairT")))
+BUCKETS = Dict(List(STR), List(Ref("KPairT")))  # (tuple(sorted(..)) is typed as a list by the engine)
 contract(
     f"{_KP_MOD}:mergeScripts",
     props=["C05"],
     params={"kerningPerScript": BUCKETS},
     returns=BUCKETS,
-    sorted_axioms=True,
     raises={"AssertionError": "any(len(K) == 0 for K in set(kerningPerScript))"},
     ensures={"t": "True"},
     canaries={"empty": "len(result) == 0"},
-    locals={"sets": SETS, "merged": BOOL, "common": Set(STR), "rest": SETS, "result": BUCKETS},
-    loops={
-        "while merged": Loop(locals={"result": SETS}),
-        "while sets": Loop(locals={"result": SETS}),
-        "for scripts in rest": Loop(index="j"),
-        "for (scripts, pairs) in kerningPerScript.items()": Loop(index="a", locals={"result": BUCKETS}),
-        "for scripts2 in sets": Loop(index="b", locals={"result": BUCKETS}),
-    },
+    locals={"sets": SETS, "merged": BOOL, "common": Set(STR), "rest": SETS, "result": SETS, "result@L984": BUCKETS, "result@L988": BUCKETS},
+    comp_positions=True,
+    ghost_vars={"US": (Set(STR), "{x for K in kerningPerScript for x in K}"), "UR": (Set(STR), "set()"), "US1": (Set(STR), "set()"), "c0": (Set(STR), "set()")},
+    ghost=_MERGE_GHOST,
+    loops=_merge_loops(),
 )
